@@ -771,7 +771,7 @@ func valCond(e *env, o Op) string {
 	case "updval", "rmval":
 		switch {
 		case live && del:
-			if o.K == "rmval" {
+			if o.K == "rmval" && !fixedRemove {
 				return "fail:remove of an already deleted record"
 			}
 			return "ok"
@@ -1354,7 +1354,7 @@ func opCoq(o Op) string {
 // modelled validator-journal reverts (fixes/C09_validator_journal_reverts.diff):
 // a revert across RemoveValidator gives the validator back, and a revert across
 // RemoveWithdrawRecords gives the queue back in its old order.
-func treeFixed() (rmval, wdorder, create bool) {
+func treeFixed() (rmval, wdorder, create, remove bool) {
 	e := newEnv()
 	e.exec(Op{K: "createval", A: 1, B: 1, C: 1, V: "10", W: "1000"})
 	e.exec(Op{K: "finalise", Del: true})
@@ -1380,15 +1380,21 @@ func treeFixed() (rmval, wdorder, create bool) {
 	id, _, _ = e.exec(Op{K: "snapshot"})
 	e.exec(Op{K: "createval", A: 1, B: 3, V: "7", W: "70"})
 	e.exec(Op{K: "revert", A: uint64(id)})
-	create = e.st.VerifC09Internals().Index[valAddr(1)]
+	create = e.st.VerifC09PeekLive(valAddr(1))
+	// fix 464c034: RemoveValidator drops the index entry at once and refuses a removed record
+	e = newEnv()
+	e.exec(Op{K: "createval", A: 1, B: 1, C: 1, V: "9", W: "13"})
+	e.exec(Op{K: "rmval", A: 1})
+	again, _, _ := e.exec(Op{K: "rmval", A: 1})
+	remove = !e.st.VerifC09Internals().Index[valAddr(1)] && again == 0
 	return
 }
 
-var fixedFlag, fixedCreate bool
+var fixedFlag, fixedCreate, fixedRemove bool
 
 func caseCoq(ops []Op, trace [][]string) string {
 	var sb strings.Builder
-	sb.WriteString("mkCase (mkFx " + bc(fixedFlag) + " " + bc(fixedCreate) + ") [")
+	sb.WriteString("mkCase (mkFx " + bc(fixedFlag) + " " + bc(fixedCreate) + " " + bc(fixedRemove) + ") [")
 	for i, o := range ops {
 		if i > 0 {
 			sb.WriteString("; ")
@@ -1460,8 +1466,9 @@ func doGen(seed uint64, n int, outDir, corpusDir, tier string) {
 	// 7919 apart); start from a mixed value so that the streams of different seeds do not overlap
 	r := vf.NewRng(vf.NewRng(seed).U64())
 	res := vf.NewResult("C09", seed)
-	fa, fb, fc := treeFixed()
-	fixedFlag, fixedCreate = fa, fc
+	fa, fb, fc, fr := treeFixed()
+	fixedFlag, fixedCreate, fixedRemove = fa, fc, fr
+	res.Extra["tree_has_remove_once_repair"] = fr
 	res.Extra["tree_has_remove_validator_repair"] = fa
 	res.Extra["tree_has_withdraw_order_repair"] = fb
 	res.Extra["tree_has_create_revert_repair"] = fc
@@ -1621,8 +1628,8 @@ func main() {
 		for _, o := range executed {
 			xs = append(xs, opCoq(o))
 		}
-		fa, _, fc := treeFixed()
-		fmt.Printf("From VF.C09 Require Import Model.\nLocal Open Scope N_scope.\nEval vm_compute in trace_full (mkFx %s %s) [%s] init.\n", bc(fa), bc(fc), strings.Join(xs, "; "))
+		fa, _, fc, fr := treeFixed()
+		fmt.Printf("From VF.C09 Require Import Model.\nLocal Open Scope N_scope.\nEval vm_compute in trace_full (mkFx %s %s %s) [%s] init.\n", bc(fa), bc(fc), bc(fr), strings.Join(xs, "; "))
 	default:
 		fmt.Println("usage: c09 gen|replay")
 		os.Exit(2)
